@@ -624,6 +624,8 @@ class FlexWindow(Strategy):
                     min_total_power = total_power
             # actual charge
             avail_power = total_power - timesteps[0]["total_load"]
+            # current timestep: actual load may differ from prediction
+            avail_power = min(avail_power, gc.cur_max_power - gc.get_current_load())
             for b_id, battery in self.world_state.batteries.items():
                 avail_power = (0 if avail_power < battery.min_charging_power
                                else avail_power)
@@ -673,6 +675,8 @@ class FlexWindow(Strategy):
 
             # actual discharge
             needed_power = timesteps[0]["total_load"] - total_power
+            # current timestep: actual load may differ from prediction
+            needed_power = min(needed_power, gc.cur_max_power + gc.get_current_load())
 
             for b_id, battery in self.world_state.batteries.items():
                 if needed_power < 0:
@@ -786,6 +790,8 @@ class FlexWindow(Strategy):
                     else:
                         min_total_power = total_power
                 avail_power = total_power - window_timesteps[0]["total_load"]
+                # current timestep: actual load may differ from prediction
+                avail_power = min(avail_power, gc.cur_max_power - gc.get_current_load())
                 avail_power = (0 if avail_power < vehicle.vehicle_type.min_charging_power
                                else avail_power)
                 charge = vehicle.battery.load(self.interval, max_power=avail_power)["avg_power"]
@@ -828,6 +834,8 @@ class FlexWindow(Strategy):
                         min_total_power = total_power
 
                 needed_power = no_window_timesteps[0]["total_load"] - total_power
+                # current timestep: actual load may differ from prediction
+                needed_power = min(needed_power, gc.cur_max_power + gc.get_current_load())
                 if needed_power < 0:
                     discharge = 0
                 else:
